@@ -131,6 +131,10 @@ SPECS = {
              requires=CORE + ["GoTypes", "Parse", "RunRaw"],
              chk="fun c => []",
              rule="non-trivial: a raw Provide/Decorate/Invoke was accepted and its Info struct has at least one entry (counted in grammar_stream.accepted_operations_with_info)"),
+    "C19": S(profiles=[("core-mix", 0.1)], projection="PVerdict", scale=0.2,
+             requires=CORE + ["Dot", "RunViz"],
+             chk="fun c => []",
+             rule="non-trivial: a history over declared functions whose final graph has at least one cluster (each recorded DOT text is parsed and compared; error graphs counted in visualize.error_graphs)"),
     "C20": S(profiles=[("callbacks", 1.0)], projection="PFull",
              chk="fun c => chk_C20 (cs_cfg c) (cs_dur c) (cs_hist c) (cs_impl c)",
              rule="non-trivial: a function with a callback was executed"),
